@@ -89,7 +89,7 @@ def build_all(verbose=False):
 def _shard_cmd(job, seed, tier, shard, shards, out):
     eng = job["engine"]
     args = ["run", job["scenario"], "--seed", str(seed), "--tier", tier, "--shard", str(shard), "--shards", str(shards),
-            "--transport", job.get("transport", "direct"), "--engine", {"sim": "sim", "asan": "mt", "miri": "miri"}.get(eng, eng),
+            "--transport", job.get("transport", "direct"), "--engine", job.get("engine_arg") or {"sim": "sim", "asan": "mt", "miri": "miri"}.get(eng, eng),
             "--out", out]
     if job.get("episodes") is not None:
         args += ["--episodes", str(job["episodes"])]
